@@ -205,6 +205,8 @@ def run_translator(ck):
            "Definition LSW := Eval vm_compute in (ce_all_limited gen_content_encodings gen_ce_body_wraps, gen_ce_body_wraps).\nPrint LSW.\n"
            "Definition DPM := Eval vm_compute in (dprog_eqb gen_prom_decode_prog prom_prog, dprog_eqb gen_lokiproto_decode_prog lokiproto_prog).\nPrint DPM.\n"
            "Definition DFP := Eval vm_compute in (failing_probes gen_prom_decode_prog, failing_probes gen_lokiproto_decode_prog).\nPrint DFP.\n"
+           "Definition LSB := Eval vm_compute in (forallb site_uniform gen_lockstep_blocks, Z.of_nat (List.length gen_lockstep_blocks), "
+           "map (fun s => let '(f, fn, _, _, _) := s in fn) (filter (fun s => negb (site_uniform s)) gen_lockstep_blocks)).\nPrint LSB.\n"
            "Definition PPG := Eval vm_compute in strs_eqb' gen_pprof_parse_guard pprof_parse_guard_model.\nPrint PPG.\n"
            "Definition PRF := Eval vm_compute in (profile_ok gen_on_profile_prog gen_profile_fields gen_profile_cols gen_profile_cols_unknown, "
            "profile_request_cols gen_on_profile_prog gen_profile_cols 1).\nPrint PRF.\n")
@@ -296,6 +298,10 @@ def run_translator(ck):
                   "(profile_ok, what a one-row request appends to the 13 columns) = " + val("PRF"))
     ck.obligation("golangPprof.go Parse inflates a gzip-compressed profile itself through helpers.LimitDecoded + io.ReadAll and refuses a second gzip layer before "
                   "the profile parser sees it (profile_gzip_layer_in_source)", val("PPG") == "true", "gen_pprof_parse_guard differs from pprof_parse_guard_model (see coq/gen/GenGoroutinesWriter.v)")
+    ck.obligation("every statement list that changes the length of a slice handed to onEntries at the five non-literal call sites is uniform (no control flow inside, every "
+                  "member undergoes the same sequence of changes), derived arguments are len(member) or the members' make expression -- computed inside Coq from the extracted lists "
+                  "(non_literal_sites_are_uniform; uniform_sites_hand_over_slices_of_one_length says what it means)", val("LSB").replace(" ", "").startswith("(true,5,"),
+                  "(all uniform, sites, functions with a non-uniform list) = " + val("LSB"))
     dfp = val("DFP").replace("%N", "")
     probes = parse_probes(dfp)
     if dfp.replace(" ", "") != "([],[])" and probes in (None, ([], [])):
